@@ -193,6 +193,17 @@ func (w *Worker) Open(ctx context.Context) (err error) {
 		r.Append(func() error {
 			return task.Close(ctx)
 		})
+		if _, isSource := task.(*SourceTask); isSource {
+			// SourceTask.Close is deliberately a no-op (the worker tears the
+			// source down in Stop/Close), so the rollback has to do it here:
+			// otherwise a start that fails after the source was opened left
+			// the source connector open for good - its plugin session was
+			// never closed and every later start of the pipeline was refused
+			// with "connector is running".
+			r.Append(func() error {
+				return w.tearDownSource(ctx)
+			})
+		}
 	}
 
 	err = w.DLQ.Open(ctx)
